@@ -76,8 +76,9 @@ def run(ctx, res):
         for f in fl:
             # every credential choice: some faults only exist for one key type (RSA exponent, EC curve, ...), and which
             # choice a seed happens to draw must not decide whether a fault is exercised at all
-            for ch in choices:
-                tasks.append((fmt, ch, rng.choice(atts), (f,), rng.randrange(1000)))
+            # ... and every attestation-key algorithm likewise (some deviations only exist under one statement algorithm)
+            for i in range(max(len(choices), len(atts))):
+                tasks.append((fmt, choices[i % len(choices)], atts[(i + fl.index(f)) % len(atts)], (f,), rng.randrange(1000)))
             for _ in range(0 if ctx.quick() else 6):
                 tasks.append((fmt, rng.choice(choices), rng.choice(atts), (f,), rng.randrange(1000)))
         # combinations: pairs (thorough: all pairs; quick: a sample)
